@@ -100,8 +100,9 @@ class JournalFileBackend(BaseJournalBackend):
 
     def append_logs(self, logs: list[dict[str, Any]]) -> None:
         with get_lock_file(self._lock):
-            what_to_write = (
-                "\n".join([json.dumps(log, separators=(",", ":")) for log in logs]) + "\n"
+            # Every record is followed by a newline; an empty batch writes nothing.
+            what_to_write = "".join(
+                [json.dumps(log, separators=(",", ":")) + "\n" for log in logs]
             )
             with open(self._file_path, "ab") as f:
                 f.write(what_to_write.encode("utf-8"))
